@@ -36,7 +36,7 @@ def get_cls(name):
 
 def knobs():
     return flat.Knobs(max_models=2, p_unknown_event=0.0, max_history=4, p_queued=0.3, p_on_exception=0.0,
-                      max_states=4, max_events=2)
+                      max_states=4, max_events=2, p_custom_attr=0.15, p_ignore_flip=0.2)
 
 
 def variants(base, items, rng, all_positions):
@@ -335,6 +335,7 @@ def na_clone(d, history=None):
 def na_base(rng, setup):
     kn = flat.Knobs(max_models=2, p_unknown_event=0.0, max_history=4, p_queued=0.0, max_states=5, max_events=2)
     d = flat.gen_flat(rng, kn)
+    d.model_attr = 'state'
     d.qmode = rng.choice([0, 0, 1])
     d.queued = bool(d.qmode)
     d.kinds = {}
